@@ -32,7 +32,7 @@ def run(ctx):
         mine=MINE,
         design_consts=ctx.q(
             dict(NT=2, NF=3, MaxT=1, BSet='{"U","S","X","K"}', HashOn="FALSE", MaxIO=2),
-            dict(NT=3, NF=3, MaxT=1, BSet='{"U","S","R","X","K"}', HashOn="FALSE", MaxIO=2),
+            dict(NT=2, NF=3, MaxT=2, BSet='{"U","S","R","C","X","K"}', HashOn="FALSE", MaxIO=2),
         ),
         plans=plans,
         api_reps=ctx.q(1, 2),
